@@ -26,6 +26,8 @@ func c01Addressings() []c01Addr {
 		{"both", "e1", "e2"}, {"both", "e2", "e1"}, {"tcp", "e1", ""}, {"tcp", "e2", ""},
 		// near misses: never an upstream of e1/e2; e1x has its own upstream
 		{"host", "e", ""}, {"header", "E1", ""}, {"header", "e1x", ""}, {"tcp", "e1x", ""}, {"tcp", "e", ""}, {"host", "e1x", ""},
+		// E1 differs from e1 only in case and has its own upstream
+		{"host", "E1", ""}, {"tcp", "E1", ""}, {"both", "E1", "e1"}, {"both", "e1", "E1"},
 	}
 }
 
@@ -47,7 +49,7 @@ type c01World struct {
 func newC01World(n int) *c01World {
 	w := &c01World{n: n, cl: e4.NewCompCluster(n, e4.DefaultProxyConfig(), nil), ups: map[string]*e4.StampUpstream{}, has: map[string]bool{}}
 	for i := 0; i < n; i++ {
-		for _, ep := range append(append([]string{}, c01Endpoints...), "e1x") {
+		for _, ep := range append(append([]string{}, c01Endpoints...), "e1x", "E1") {
 			w.ups[fmt.Sprintf("%s@%d", ep, i)] = &e4.StampUpstream{Endpoint: ep, Name: fmt.Sprintf("u-%s-%d", ep, i), Node: fmt.Sprintf("n%d", i)}
 		}
 	}
@@ -55,6 +57,11 @@ func newC01World(n int) *c01World {
 	w.cl.Nodes[n-1].Mgr.AddConn(w.ups[fmt.Sprintf("e1x@%d", n-1)])
 	for i := 0; i < n-1; i++ {
 		w.cl.Believe(i, n-1, "e1x", 1)
+	}
+	// ... and so has E1, on the first node
+	w.cl.Nodes[0].Mgr.AddConn(w.ups["E1@0"])
+	for i := 1; i < n; i++ {
+		w.cl.Believe(i, 0, "E1", 1)
 	}
 	return w
 }
@@ -130,7 +137,7 @@ func (w *c01World) run(c c01Case) (sig, msg string) {
 				}
 			}
 		}
-		if c.Addr.Endpoint == "e1x" {
+		if c.Addr.Endpoint == "e1x" || c.Addr.Endpoint == "E1" {
 			exists = true
 		}
 		if exists && !ok {
@@ -318,7 +325,72 @@ func c01Settled(run *evid.Run, n int, churn bool) (evals, placements int) {
 			_ = l.Ln.Shutdown()
 		}
 	}
+	lns = map[int][]*e4.StampListener{}
+	if !churn && n >= 2 {
+		evals += c01GoAway(run, nodes, func() bool { return settle(0) })
+	}
 	return
+}
+
+// c01GoAway: a listener that stops accepting with Close() keeps its
+// connection to the node (tunnels in flight survive), so nothing but the
+// refused dial tells the node. Whatever route finds out, requests must end up
+// at the listener that is still there.
+func c01GoAway(run *evid.Run, nodes []*e4.FullNode, settleEmpty func() bool) (evals int) {
+	n := len(nodes)
+	ctx := context.Background()
+	for _, mode := range []string{"tcp", "header", "host"} {
+		for _, ep := range c01Endpoints {
+			a, err := e4.Listen(ctx, nodes[0].UpstreamAddr(), ep, "closing", e4.ListenOpts{})
+			if err != nil {
+				evid.Fatal("listen: %v", err)
+			}
+			b, err := e4.Listen(ctx, nodes[n-1].UpstreamAddr(), ep, "staying", e4.ListenOpts{})
+			if err != nil {
+				evid.Fatal("listen: %v", err)
+			}
+			known := e4.WaitFor(30*time.Second, func() bool {
+				for _, o := range nodes {
+					for _, x := range []*e4.FullNode{nodes[0], nodes[n-1]} {
+						nd, ok := o.State().Node(x.ID)
+						if !ok || nd.Endpoints[ep] != 1 {
+							return false
+						}
+					}
+				}
+				return true
+			})
+			if !known {
+				evid.Fatal("go-away phase: listeners not visible everywhere")
+			}
+			_ = a.Ln.Close()
+			for e := range nodes {
+				served := false
+				var last e4.Result
+				for attempt := 0; attempt < 40 && !served; attempt++ {
+					evals++
+					last = e4.Do(nodes[e].ProxyAddr(), e4.Addressing{Mode: mode, Endpoint: ep})
+					ok := (last.Status == 200 || last.Status == 101) && last.Err == ""
+					if ok && last.Endpoint != ep {
+						run.Violation("C01", "delivered-to-wrong-endpoint", fmt.Sprintf("go-away phase %s/%s entry %d -> %s", mode, ep, e, last), map[string]any{"engine": "E4-C01-settled", "phase": "go-away", "nodes": n})
+					}
+					served = ok
+					if !served {
+						time.Sleep(50 * time.Millisecond)
+					}
+				}
+				if !served {
+					run.Violation("C01", "not-served-although-upstream-exists", fmt.Sprintf("listener of %s on node 0 stopped accepting (Close), another listens on node %d: 40 %s requests entering at node %d over 2s were all refused, last %s; views %s", ep, n-1, mode, e, last, e4.ViewOf(nodes[e])), map[string]any{"engine": "E4-C01-settled", "phase": "go-away", "nodes": n})
+				}
+			}
+			_ = a.Ln.Shutdown()
+			_ = b.Ln.Shutdown()
+			if !settleEmpty() {
+				evid.Fatal("go-away phase: routing did not drain")
+			}
+		}
+	}
+	return evals
 }
 
 func init() {
@@ -344,7 +416,7 @@ func init() {
 		}
 		run.Set("evaluations", evals+e2)
 		run.Set("distinct_nontrivial", nontriv+pl)
-		run.Set("rule", "component cluster (3 real proxies/managers/routing tables): all 64 placements of upstreams of two endpoints x 5 routing-view policies (truth, all, none, swapped, complement) x entry node x 14 addressings (Host label, x-piko-endpoint, conflicting, TCP route, near-miss names), non-trivial = both endpoints have upstreams; full cluster (real servers, gossip, client listeners): Gray-code walk over every placement, settle, every entry x 8 addressings")
+		run.Set("rule", "component cluster (3 real proxies/managers/routing tables): all 64 placements of upstreams of two endpoints x 5 routing-view policies (truth, all, none, swapped, complement) x entry node x 18 addressings (Host label, x-piko-endpoint, conflicting, TCP route, near-miss names), non-trivial = both endpoints have upstreams; full cluster (real servers, gossip, client listeners): Gray-code walk over every placement, settle, every entry x 8 addressings; then per endpoint x {tcp, header, host}: a listener stops accepting with Close() (connection kept) while another node has a listener, every entry must end up served")
 		run.Set("settled_placements", pl)
 		run.Set("exhaustive", true)
 		run.Assume("interleaving of connects/disconnects with in-flight requests is free-running (lock-level interleavings of Select/AddConn/RemoveConn are enumerated by C15/C20)")
